@@ -195,6 +195,21 @@ func (g *Graph) Reachable(l Loc) bool { return g.live[l.B] }
 // Dominates: every path from entry to b passes a first (a strictly before b
 // when in the same block).
 func (g *Graph) Dominates(a, b Loc) bool {
+	// A location inside a defer statement is where the call is registered;
+	// the call itself runs at function exit, after everything else, so it
+	// "happens before" nothing.  (A rule that wants the registration order
+	// uses DominatesReg.)
+	if a.B >= 0 && a.B < len(g.C.Blocks) && a.I >= 0 && a.I < len(g.C.Blocks[a.B].Nodes) {
+		if _, isDefer := g.C.Blocks[a.B].Nodes[a.I].(*ast.DeferStmt); isDefer {
+			return false
+		}
+	}
+	return g.DominatesReg(a, b)
+}
+
+// DominatesReg is plain dominance of CFG locations (a deferred call counts at
+// its registration point).
+func (g *Graph) DominatesReg(a, b Loc) bool {
 	if a.B == b.B {
 		return a.I < b.I
 	}
